@@ -3,6 +3,8 @@
 theorems : lean/GoldModel/Props/C12.lean — for EVERY tree: entries = one per top-level
            const/type/field/proc/func child, named as declared, kind of the construct, source
            order, nested under the first class/module child; insert / remove / reorder lemmas.
+           lean/GoldModel/Props/C12Prog.lean — for PROGRAMS: the declared outline read off the abstract
+           syntax (Prog.outline) and outline (parse_gold (print p)) = Prog.outline p for every well-formed p.
 tie      : the `parse` correspondence carries the outline of the real
            DocumentSymbolGeneratorFromAst next to the model's (same line, compared verbatim).
 oracle   : on the implementation alone: the outline it returns vs the rule evaluated on the
@@ -53,6 +55,7 @@ def run(ctx):
     if ctx.replay:
         return replay(ctx)
     ctx.prove("GoldModel.Props.C12")
+    ctx.prove("GoldModel.Props.C12Prog")
     if not ctx.build_harness():
         return ctx.finish(rule=RULE)
     q = ctx.tier == "quick"
